@@ -341,7 +341,7 @@ class Sim:
         if not consistent:
             self.stats['faults']['driver_inconsistent_pair'] = \
                 self.stats['faults'].get('driver_inconsistent_pair', 0) + 1
-            self.check_bounds_and_pickups(key, ztol)
+            self.check_bounds_and_pickups(key, ztol, inside)
             return
         # (b) re-evaluating the merit function reproduces the objective
         ss = self.merit()
@@ -388,13 +388,15 @@ class Sim:
         if not inside:
             self.stats['faults']['x0_outside_bounds'] = \
                 self.stats['faults'].get('x0_outside_bounds', 0) + 1
-        self.check_bounds_and_pickups(key, ztol)
+        self.check_bounds_and_pickups(key, ztol, inside)
         if rx != x0:
             self.probe('returned_point_differs_from_start')
 
-    def check_bounds_and_pickups(self, key, ztol):
-        # (d) bounded variables inside their bounds, in physical units
-        for j, spec in enumerate(self.vspecs):
+    def check_bounds_and_pickups(self, key, ztol, inside=True):
+        # (d) bounded variables inside their bounds, in physical units (for
+        # an admissible start: some drivers hand back an inadmissible start
+        # unchanged)
+        for j, spec in enumerate(self.vspecs if inside else []):
             lo, hi = spec.get('min'), spec.get('max')
             if lo is None and hi is None:
                 continue
@@ -816,6 +818,12 @@ def gen_variable(ch, m):
                 lo = z
             else:
                 hi = z
+        if ch.chance(0.06):
+            # injected fault: bounds that exclude the starting value.  Only
+            # the clauses that do not presuppose an admissible start are
+            # judged then (state == result.x, undo restores the lens)
+            lo, hi = ch.rounded(cur + span * 0.1, 6), \
+                ch.rounded(cur + span, 6)
         spec['min'], spec['max'] = lo, hi
         if ch.chance(0.1):
             spec[ch.pick(['min', 'max'])] = None
